@@ -2294,7 +2294,7 @@ class Commit(ShaFile):
                 ),
             )
         )
-        if self.encoding:
+        if self.encoding is not None:
             headers.append((_ENCODING_HEADER, self.encoding))
         for mergetag in self.mergetag:
             headers.append((_MERGETAG_HEADER, mergetag.as_raw_string()[:-1]))
